@@ -124,7 +124,7 @@ def random_table(rs, ncol, pattern, nrow=None):
         for j in range(1, ncol):
             z[:, j] = z[:, 0] * (1 if j % 2 else -1) + rs.uniform(0.05, 0.8) * z[:, j]
     cols = ['v%d' % i for i in range(ncol)]
-    return pd.DataFrame(z, columns=cols)
+    return pd.DataFrame(z, columns=cols, index=rs.permutation(n) + 3)       # the row index is not 0..n-1
 
 
 def u_matrix_of(df):
